@@ -102,7 +102,7 @@ def scenarios(rng, quick):
     # for the protocol tie (C06.matches_fan_protocol, the direct law) and the per-step monitors: the rest of the shared engine
     # corpus and generated machines (the outcome laws of this check are about the scenarios above)
     have = {sc.name for sc in out}
-    for sc in engine_props.corpus(rng, quick) + engine_props.generated(rng, 150 if quick else 1500, 2):
+    for sc in engine_props.corpus(rng, quick) + engine_props.generated(rng, 100 if quick else 1500, 2):
         if sc.name not in have and sc.sm_type == "STANDARD" and not sc.extra.get("machines"):
             sc.extra["tie_only"] = True
             out.append(sc)
